@@ -373,6 +373,11 @@ class Peer:
     def handle_connection(self, connection: 'Incoming') -> Iterator[bool] | None:
         log.debug(lazymsg('peer.fsm.state state={s}', s=self.fsm.name()), self.id())
 
+        if not self._restart:
+            # removed from the configuration (or shutting down): the coroutine which served the last session may
+            # still be running, a connection accepted now would be written to by it (RFC 4486: 6/3)
+            return connection.notification(6, 3, b'peer de-configured')
+
         # if the other side fails, we go back to idle
         if self.fsm == FSM.ESTABLISHED:
             log.debug(
